@@ -689,7 +689,38 @@ def run_case(case, prop):
             judge_ignore(J, tgt, f, kg, rng, spec_call, asg, fixed, pool)
         elif prop == 'C12':
             judge_round(J, tgt, f, kg, rng, spec_call, asg, fixed)
+    if prop == 'C11' and kind in ('func', 'sibling') and '**' in (case.get('ignore') or []):
+        judge_wrapper_after_use(J, tgt, f, case, rng)
     return J
+
+
+def judge_wrapper_after_use(J, tgt, f, case, rng):
+    """the function has been keyed through klepto; only now a variadic functools.wraps wrapper of it is made and
+    cached with '**' ignored (wraps copies the function's __dict__, i.e. whatever has been attached to it meanwhile).
+    The wrapper's own signature is (*args, **kwds): every keyword is an extra one and must not reach the key."""
+    import functools
+    plain = tgt.plain
+
+    @functools.wraps(plain)
+    def w(*args, **kwds):
+        return plain(*args, **kwds)
+    try:
+        fw = make_deco(dict(case, ignore=['**'], recreate=None))(w)
+    except Exception:
+        return
+    names = [x[0] for x in case['spec']['kwonly']] + ['zz'] + spec_names(case['spec'])[-1:]
+    for n in names:
+        try:
+            k1, k2 = fw.key(1, **{n: 1}), fw.key(1, **{n: 2})
+        except Exception:
+            continue
+        J.note('c11_wrapper_after_use_pairs')
+        if not _same(k1, k2):
+            J.bad('C11', 'ignored-argument-changed-key',
+                  "a functools.wraps wrapper (*args, **kwds) made after the function was used, cached with ignore='**': "
+                  'w(1, %s=1) and w(1, %s=2) differ only in an extra keyword but get keys %s and %s'
+                  % (n, n, srepr(k1)[:100], srepr(k2)[:100]), mech=memo_only_mech(case, k1, k2))
+            return
 
 
 def _call_ok(tgt, args, kwds):
